@@ -17,6 +17,7 @@ def swarm(rng):
         "max_depth": rng.choice([1, 2, 2]),
         "depth": rng.choice([1, 2, 2, 3]),
         "recalc": rng.random() < 0.25,
+        "p_sformula_call": rng.choice([0.0, 0.5]),
         "p_check": rng.choice([0.15, 0.3]),
         "focus": rng.choice(["mixed", "refs", "struct", "values", "mixed"]),
     }
